@@ -349,7 +349,12 @@ impl Lmdb {
         when: Time,
     ) -> Result<(), Error> {
         let key = Self::key_naddr_index(addr);
-        self.deleted_naddrs.put(txn, &key, &when.as_u64())?;
+        // a deletion time never moves backwards
+        let when = match self.deleted_naddrs.get(txn, &key)? {
+            Some(previous) if previous > when.as_u64() => previous,
+            _ => when.as_u64(),
+        };
+        self.deleted_naddrs.put(txn, &key, &when)?;
         Ok(())
     }
 
